@@ -136,6 +136,12 @@ def reader_failures_of_case(c):
             elif part.startswith("LEAK"):
                 if c["args"].startswith(("t ", "w ")):
                     promise = "parked-in-promise" in tags or any(t.startswith("leak=") and ("async.resolve" in t or "async.reject" in t) for t in tags)
+                    if "connect-race-family" in tags or "orphan-conn" in tags:
+                        out.append(("property", "a Transport connection whose set-up completed after its requester had left (context ended) and after the pool was "
+                                                "closed (Transport.CloseIdleConnections / Writer.Close) is neither pooled nor closed: its (*conn).run goroutine waits for "
+                                                "requests forever and the socket stays open (connGroup.grabConnOrConnect: if !g.releaseConn(c) { c.close() }; theorems "
+                                                "C09_t_closed_group_holds_nothing, C09_t_late_setup_pooled_or_closed, skeleton assumption L2)", None))
+                        continue
                     if promise or "late-answer-family" in tags:
                         out.append(("property", "after a round trip was abandoned through its context and the broker answered (or closed the connection) LATER, "
                                                 "Transport connection goroutines / connections are still there after Writer.Close / Transport.CloseIdleConnections and the "
@@ -144,6 +150,11 @@ def reader_failures_of_case(c):
                         continue
                     # a broker that stays SILENT after the cancel: kafka.Transport reads without a deadline; outside the text of C09
                     # (which speaks of Writer, Reader, ConsumerGroup); reported as an observation
+                    continue
+                if "silent-step-family" in tags and any("LookupPartition" in t for t in tags if t.startswith("leak=")):
+                    out.append(("property", "after Reader.Close (or the end of the dial context) the helper goroutine of Dialer.LookupPartition is still blocked reading "
+                                            "on the lookup connection and that connection is still open while the broker stays silent: the lookup connection must be "
+                                            "closed on every way out of the FUNCTION (theorems C09_r_lookup_conn_owned, C09_r_close_post_registry; skeleton assumption L1)", None))
                     continue
                 out.append(("property", "goroutines or connections of a Reader / ConsumerGroup outlive Close beyond the grace period: " + part
                             + " " + ",".join(t for t in tags if t.startswith("leak=")), None))
@@ -256,7 +267,7 @@ def reader_half(ctx):
     samples = [c["line"][:400] + " | " + c["go"][:60] + " | " + c["feats"][:160]
                for c in ([x for x in e2e if x["args"].startswith("g")][:2] + [x for x in e2e if x["args"].startswith("p")][:1]
                          + [x for x in cases if x["op"] == "det"][:1])]
-    tleaks = [c for c in e2e if c["args"].startswith("t ") and "LEAK" in c["go"] and "late-answer-family" not in _tags(c) and "parked-in-promise" not in _tags(c)]
+    tleaks = [c for c in e2e if c["args"].startswith("t ") and "LEAK" in c["go"] and not ({"late-answer-family", "parked-in-promise", "connect-race-family", "orphan-conn"} & set(_tags(c)))]
     return dict(
         evaluations=len(cases), distinct_nontrivial=len(dn), hist=hist, samples=samples, failures=failures,
         rule="Reader half: cases from the same PRNG seed in harness/cmd/c09r: concurrent lifecycle programs on the real kafka.Reader (partition mode and group "
@@ -265,12 +276,17 @@ def reader_half(ctx):
              "rebalances by a second Reader, ForceRebalance, Evict; ReadLag on/off; CommitInterval 0 / >0; QueueCapacity 1..100) and on a real kafka.Transport "
              "(round trips with contexts cancelled while the broker is silent) and, in every run, the late-answer family: the context of a bare Client call, "
              "of a Writer's produce / metadata round trip or of a Reader's request ends while the request is in flight and the broker answers or closes the "
-             "connection 1x..3x later, then Close + CloseIdleConnections + goroutine / connection census; deterministic single-threaded scenarios (fetch k of N, commit, Close, fetch again) "
+             "connection 1x..3x later, then Close + CloseIdleConnections + goroutine / connection census; the silent-step family (the peer of a partition reader's "
+             "leader lookup falls silent for good after accept / after ApiVersions / after the Metadata request / mid-response / at Fetch; Close; census while the fake "
+             "keeps its side open); the connect-race family (a Transport connection's set-up, slower than the request's context, completes after the pool was closed / "
+             "while it is open / fails late); the generation-self-end family; deterministic single-threaded scenarios (fetch k of N, commit, Close, fetch again) "
              "compared with the model's run; n CommitMessages after Close; an e2e case counts when the implementation ran it under watchdogs and the extracted "
              "monitors judged its timeline; non-trivial = any feature tag beyond the fake used and kind ok/idle; distinct by hash of op+args.",
         extra=dict(reader_go_run_s=round(r["go_time"], 1), reader_scenarios=len(cases), reader_e2e=len(e2e),
                    reader_det_model_runs=sum(1 for c in cases if c["op"] == "det"),
                    late_answer_scenarios=sum(1 for c in e2e if "late-answer-family" in _tags(c)),
+                   silent_step_scenarios=sum(1 for c in e2e if "silent-step-family" in _tags(c)),
+                   connect_race_scenarios=sum(1 for c in e2e if "connect-race-family" in _tags(c)),
                    reader_failing_case_count=failing,
                    reader_leave_excused=sum(1 for c in e2e if "leave" in str(c.get("model")) and any(t in ("leave-faulted", "evicted") for t in _tags(c))),
                    transport_observation=(f"{len(tleaks)} Transport scenario(s): after a round trip was abandoned through its context while the broker stays silent, "
